@@ -1292,10 +1292,15 @@ class Mixture(_AbstractDistribution):
     def misfit(self, m):
         misfits = [d.misfit(m) for d in self.distributions]
 
-
-        with _numpy.errstate(divide = 'ignore'):
-            _misfit = self.misfit_bounds(m) - _numpy.log(
-                _numpy.sum(_numpy.exp(_numpy.log(self.probabilities) - misfits))
+        with _numpy.errstate(divide="ignore", invalid="ignore"):
+            log_terms = _numpy.log(self.probabilities) - misfits
+            # Log-sum-exp: far away from every component all exp(-misfit) underflow to
+            # zero (misfit inf, gradient nan) although the mixture's misfit is finite.
+            shift = _numpy.max(log_terms)
+            if not _numpy.isfinite(shift):
+                shift = 0.0
+            _misfit = self.misfit_bounds(m) - (
+                shift + _numpy.log(_numpy.sum(_numpy.exp(log_terms - shift)))
             )
 
         return _misfit
@@ -1304,7 +1309,13 @@ class Mixture(_AbstractDistribution):
 
         misfits = [d.misfit(m) for d in self.distributions]
         gradients = _numpy.array([d.gradient(m) for d in self.distributions])
-        probs = _numpy.exp(_numpy.log(self.probabilities) - misfits)
+        with _numpy.errstate(divide="ignore", invalid="ignore"):
+            log_terms = _numpy.log(self.probabilities) - misfits
+            shift = _numpy.max(log_terms)
+            if not _numpy.isfinite(shift):
+                shift = 0.0
+            # Only the ratios of the component weights matter (see misfit)
+            probs = _numpy.exp(log_terms - shift)
 
         gr = _numpy.sum(
             _numpy.array([prob * (-grad) for prob, grad in zip(probs, gradients)]),
